@@ -18,6 +18,11 @@ import TextxVerif.Link.Tree
     every reference is stored (single attribute: `setattr`; list attribute: in
     reference order).
 Conformance (`textx_isinstance`) is a parameter `conf objCls targetCls`.
+Names: `Obj.name` / `Ref.name` / the builtins keys stand for the *values* the match rules
+    produced (`name=ID|STRING|INT|FLOAT|BOOL|NUMBER|user match rule`, `[T|Rule]`): the code
+    compares them with `==` and never looks at their truth value, so the model compares
+    strings.  The correspondence check (harness/props/c07.py `nkey`) maps values to strings
+    injectively modulo Python equality; `some ""`, the key of `0` … are ordinary names.
 Core Lean only.
 -/
 namespace Link
